@@ -150,7 +150,10 @@ fn fwd(op: &Op, _ctx: &dyn Context, operands: &mut dyn CoordinateSet) -> usize {
                         deformation_with_length[3] = deformation.dot(deformation).sqrt();
                         operands.set_coord(i, &deformation_with_length);
                     } else {
-                        operands.set_coord(i, &(cart + deformation));
+                        // The epoch is not part of the correction: it comes back as it was given
+                        let mut shifted = cart + deformation;
+                        shifted[3] = cart[3];
+                        operands.set_coord(i, &shifted);
                     }
                     successes += 1;
 
@@ -205,7 +208,10 @@ fn inv(op: &Op, _ctx: &dyn Context, operands: &mut dyn CoordinateSet) -> usize {
                         deformation_with_length[3] = deformation.dot(deformation).sqrt();
                         operands.set_coord(i, &deformation_with_length);
                     } else {
-                        operands.set_coord(i, &(cart + deformation));
+                        // The epoch is not part of the correction: it comes back as it was given
+                        let mut shifted = cart + deformation;
+                        shifted[3] = cart[3];
+                        operands.set_coord(i, &shifted);
                     }
                     successes += 1;
 
